@@ -48,7 +48,7 @@ def run_check(tier, seed, replay=None):
             c.violation("params:" + rec["sig"], "%s [%s]" % (rec["why"], rec["label"]),
                         {"kind": "params", "vec": rec["vec"], "hex": rec["hex"], "label": rec["label"]})
     # T: the header the estimator's own vector is written with, on driver streams
-    tr = record_stream_traces(wd, tier, seed + 8)
+    tr = record_stream_traces(wd, tier, seed + 8, extra=gen)
     for kind, x, case in validate_stream_traces(c, wd, tr):
         ev = x["event"]
         if kind == "header":
